@@ -49,6 +49,24 @@ def unpack_opargs_wordcode(code, opc):
             yield i, op, arg
 
 
+def jump_target(offset, op, arg, opc):
+    """The offset the jump instruction ``op`` at ``offset`` with operand
+    ``arg`` goes to, or None if ``op`` is not a jump."""
+    if arg is None:
+        return None
+    if op in opc.JREL_OPS:
+        if opc.version_tuple >= (3, 11) and "JUMP_BACKWARD" in opc.opname[op]:
+            arg = -arg
+    arg2 = arg * 2 if opc.version_tuple >= (3, 10) else arg
+    if op in opc.JREL_OPS:
+        jump_offset = offset + 2 + arg2
+        jump_offset += 2 * jump_cache_size(opc.opname[op], opc.version_tuple)
+        return jump_offset
+    elif op in opc.JABS_OPS:
+        return arg2
+    return None
+
+
 def findlabels(code, opc):
     """Returns a list of instruction offsets in the supplied bytecode
     which are the targets of jump instruction.
@@ -57,20 +75,9 @@ def findlabels(code, opc):
 
     offsets = []
     for offset, op, arg in unpack_opargs(code, opc):
-        if arg is not None:
-            if op in opc.JREL_OPS:
-                if opc.version_tuple >= (3, 11) and "JUMP_BACKWARD" in opc.opname[op]:
-                    arg = -arg
-            arg2 = arg * 2 if opc.version_tuple >= (3, 10) else arg
-            if op in opc.JREL_OPS:
-                jump_offset = offset + 2 + arg2
-                jump_offset += 2 * jump_cache_size(opc.opname[op], opc.version_tuple)
-            elif op in opc.JABS_OPS:
-                jump_offset = arg2
-            else:
-                continue
-            if jump_offset not in offsets:
-                offsets.append(jump_offset)
+        jump_offset = jump_target(offset, op, arg, opc)
+        if jump_offset is not None and jump_offset not in offsets:
+            offsets.append(jump_offset)
     return offsets
 
 
@@ -82,9 +89,11 @@ def get_jump_target_maps(code, opc) -> dict:
     instructions. The values of the dictionary may be useful in control-flow
     analysis.
     """
+    unpack_opargs = unpack_opargs_wordcode if opc.version_tuple < (3, 10) else unpack_opargs_bytecode_310
+
     offset2prev = {}
     prev_offset = -1
-    for offset, op, arg in unpack_opargs_wordcode(code, opc):
+    for offset, op, arg in unpack_opargs(code, opc):
         if prev_offset >= 0:
             prev_list = offset2prev.get(offset, [])
             prev_list.append(prev_offset)
@@ -92,14 +101,9 @@ def get_jump_target_maps(code, opc) -> dict:
         prev_offset = offset
         if op in opc.NOFOLLOW:
             prev_offset = -1
-        if arg is not None:
-            jump_offset = -1
-            if op in opc.JREL_OPS:
-                jump_offset = offset + 2 + arg
-            elif op in opc.JABS_OPS:
-                jump_offset = arg
-            if jump_offset >= 0:
-                prev_list = offset2prev.get(jump_offset, [])
-                prev_list.append(offset)
-                offset2prev[jump_offset] = prev_list
+        jump_offset = jump_target(offset, op, arg, opc)
+        if jump_offset is not None and jump_offset >= 0:
+            prev_list = offset2prev.get(jump_offset, [])
+            prev_list.append(offset)
+            offset2prev[jump_offset] = prev_list
     return offset2prev
